@@ -136,7 +136,7 @@ def run_ra(tier, seed):
             for s in SITES:
                 f.write('  %s = %d\n' % (s, orders[s]))
             f.write('INVARIANTS ReaderIsolation NoRace\nCHECK_DEADLOCK FALSE\n')
-        r = core.run_tlc('LeftRightRA.tla', cfg, workers=16, xmx='16g', timeout=900, dump_trace=True, tag='C07ra')
+        r = core.run_tlc('LeftRightRA.tla', cfg, workers=16, xmx='16g', timeout=600, dump_trace=True, tag='C07ra')
         core.log('[tlc] LeftRightRA NW=%d NR=%d NReads=%d orders=%s: %d distinct, %s' % (nw, nr, nreads, orders, r.distinct, r.violated or 'holds'))
         states += r.distinct
         trans += r.generated
